@@ -156,7 +156,7 @@ AUDITED = {"open": 1, "os.listdir": 1, "os.scandir": 1, "os.mkdir": 1, "os.rmdir
 
 # ------------------------------------------------------------------ audit seam
 
-_AUD = {"on": False, "log": [], "installed": False, "fault": None}
+_AUD = {"on": False, "log": [], "installed": False, "fault": None, "xdev": None}
 _CUR = {}
 
 # ---- refusal fault: the kernel refuses ONE filesystem call that the session makes on a path inside the root (disk full, quota, read-only
@@ -166,7 +166,16 @@ REFUSAL_CLASS = {"open": "open", "os.listdir": "list", "os.scandir": "list", "os
                  "os.rename": "rename"}
 REFUSAL_CLASSES = ["any", "mkdir", "open", "rmdir", "remove", "rename", "list"]
 REFUSAL_ERRNOS = ["ENOSPC", "EACCES", "EIO", "EROFS", "EDQUOT", "ENAMETOOLONG", "EPERM", "EBUSY", "EMFILE", "ENOENT", "EEXIST"]
+# what rename(2) answers on top of those: the two names are on different file systems, the target is a non-empty directory / a directory
+# while the source is none.  Drawn separately and used when the refused call turns out to be a rename (classes "rename" and "any");
+# "same" = the errno drawn from REFUSAL_ERRNOS.
+RENAME_ERRNOS = [("same", 5), ("EXDEV", 4), ("ENOTEMPTY", 2), ("EISDIR", 2)]
 REFUSAL_P = 0.2
+# ---- a sub-tree of the root that is another file system (a mount point inside the account's directory: tmpfs, NFS export, bind mount).
+# Unlike the one-shot refusal this is a lasting property of the tree: EVERY rename / hard link whose two names are both inside the root
+# but on different sides of that directory is refused with EXDEV, as the kernel does.
+OTHER_FS_P = 0.12
+OTHER_FS_DIRS = ["a", "a/b", "d2", "sp ace"]
 
 
 def _refusal(event, paths):
@@ -184,7 +193,24 @@ def _refusal(event, paths):
     if f["seen"] < f["k"]:
         return None
     f["fired"] = cls
+    if cls == "rename" and f["rename_errname"] != "same":
+        f["errname"] = f["rename_errname"]
+        f["errno"] = getattr(errno, f["errname"])
+        f["rename_specific"] = True
     return OSError(f["errno"], os.strerror(f["errno"]), paths[0])
+
+
+def _cross_device(event, paths):
+    """EXDEV for a rename / link between the other file system inside the root and the rest of the root, or None.  Names outside
+    the root are never refused (what the server does with them is for the oracle to see)."""
+    x = _AUD["xdev"]
+    if x is None or event not in ("os.rename", "os.link") or len(paths) != 2:
+        return None
+    a, b = M.norm(paths[0]), M.norm(paths[1])
+    if not (M.inside(x["root"], a) and M.inside(x["root"], b)) or M.inside(x["dir"], a) == M.inside(x["dir"], b):
+        return None
+    x["fired"] += 1
+    return OSError(errno.EXDEV, os.strerror(errno.EXDEV), paths[0])
 
 _SUT_FILES = ("twisted/protocols/ftp.py", "twisted/python/filepath.py")
 _INTERNAL_MARKS = ("importlib", "/logging/", "linecache.py", "tokenize.py", "traceback.py", "warnings.py", "zipimport.py", "pkgutil.py")
@@ -240,6 +266,8 @@ def _hook(event, args):
             _AUD["log"].append((event, paths, _attributed(), _readonly(event, args)))
             if _AUD["fault"] is not None:
                 refuse = _refusal(event, paths)
+            if refuse is None and _AUD["xdev"] is not None:
+                refuse = _cross_device(event, paths)
     except Exception:       # an audit hook must never raise into the code under test ...
         pass
     if refuse is not None:  # ... except for the one injected refusal of a call inside the root
@@ -367,6 +395,7 @@ class Scratch:
 def _teardown():
     _AUD["on"] = False
     _AUD["fault"] = None
+    _AUD["xdev"] = None
     del _AUD["log"][:]
     env = _CUR.pop("env", None)
     if env is not None:
@@ -645,14 +674,37 @@ class Gen:
         self.sim.probe("respelt_escape_cwd_depth_%d" % min(len(self.cwd), 3))
         return out
 
+    def _root_spelling(self):
+        """A path argument that names the ROOT ITSELF - the boundary value of every path parameter, whatever the command expects
+        there (a file, a new name, a rename target): anything a command derives from its argument (parent directory, sibling,
+        temporary name next to it, intermediate directories) then lies outside the root.  Written from the working directory the
+        client believes to be in: the bare '/', exactly as many '..' as the working directory is deep, a directory entered and left
+        again (relative or absolute), runs of slashes and '.' segments; the usual decorations on top."""
+        sim = self.sim
+        form = sim.draw_choice(["slash", "climb", "downup", "absdownup", "dots"], "rootform")
+        if form == "slash":
+            s = "/"
+        elif form == "climb":
+            s = M.relative_to(self.cwd, [])
+        elif form in ("downup", "absdownup"):
+            d = sim.draw_choice([x for x in self.dirs if x], "via")
+            s = ("/" + "/".join(d)) if form == "absdownup" else M.relative_to(self.cwd, d)
+            s += "/.." * len(d)
+        else:
+            s = sim.draw_choice(["//", "/.", "/./", "/./.", "///", "/./a/.."], "rootdots")
+        sim.probe("root_spelling:" + form)
+        return self._decorate(s)
+
     def path(self, want):
         """want: 'dir' | 'file' | 'new' | 'any'.  Returns a str path argument."""
         sim = self.sim
-        kinds = [("target", 9), ("escape", 5), ("weird", 2), ("new", 8 if want == "new" else 1)]
+        kinds = [("target", 9), ("escape", 5), ("weird", 2), ("new", 8 if want == "new" else 1), ("root", 3)]
         k = sim.draw_weighted(kinds, "pathkind")
         self.respelt = False
         if k == "escape":
             s = self._escape()
+        elif k == "root":
+            s = self._root_spelling()
         elif k == "weird":
             s = sim.draw_choice(WEIRD, "weird")
         elif k == "new":
@@ -665,6 +717,8 @@ class Gen:
             else:
                 s = self._express(sim.draw_choice(self.env.files, "file"))
         segs, escaped = M.walk(self.cwd, s)
+        if not segs and not escaped:
+            sim.probe("path_argument_names_the_root:" + want)
         if escaped or self.respelt or s.startswith(("~/", "/~/", "a/~/")) or self.env.sibname in s.split("/") and ".." in s.split("/"):
             self.attempts += 1
             self.sim.probe("escape_attempt")
@@ -880,6 +934,13 @@ class Session:
             sim.event("os-refused", f["fired"], f["errname"])
             if env.population != "full":
                 sim.probe("os_refusal_on_sparse_root")
+            if f.get("rename_specific"):
+                sim.probe("os_refusal_rename_specific_errno:" + f["errname"])
+        x = _AUD["xdev"]
+        while x is not None and x["reported"] < x["fired"]:
+            x["reported"] += 1
+            sim.fault("os_refusal:cross_device")
+            sim.event("os-refused", "rename-or-link", "EXDEV", "other-fs")
         check_audit(sim, env)
         for method, segs in calls:
             # instrumentation only (no verdict): did the protocol layer hand its shell a segment list that, applied textually to the root, leaves it?
@@ -1349,15 +1410,19 @@ def run(sim):
                 "host": sim.draw_weighted([("v4", 10), ("mapped", 1), ("v6", 1)], "host"),
                 "ascii": sim.draw_bool(ASCII_P, "ascii"),
                 "rootname": env.rootname, "sibling": env.sibname, "dup_inside": env.dup_inside, "population": env.population,
-                "os_refusal": None,
+                "os_refusal": None, "other_fs": None,
             }
             if sim.draw_bool(REFUSAL_P, "os_refusal"):
                 # the k-th call of the drawn class on a path inside the root is refused by the "kernel" with the drawn errno
                 cfg["os_refusal"] = [sim.draw_choice(REFUSAL_CLASSES, "refusal_class"), sim.draw_int(1, 4, "refusal_k"),
-                                     sim.draw_choice(REFUSAL_ERRNOS, "refusal_errno")]
-                cls, k, errname = cfg["os_refusal"]
-                _AUD["fault"] = {"cls": cls, "k": k, "errno": getattr(errno, errname), "errname": errname, "root": env.root,
-                                 "seen": 0, "fired": None, "reported": False}
+                                     sim.draw_choice(REFUSAL_ERRNOS, "refusal_errno"), sim.draw_weighted(RENAME_ERRNOS, "refusal_rename_errno")]
+                cls, k, errname, rename_errname = cfg["os_refusal"]
+                _AUD["fault"] = {"cls": cls, "k": k, "errno": getattr(errno, errname), "errname": errname, "rename_errname": rename_errname,
+                                 "root": env.root, "seen": 0, "fired": None, "reported": False}
+            if sim.draw_bool(OTHER_FS_P, "other_fs"):
+                # one directory of the tree is another file system: renames / links across its boundary fail with EXDEV for the whole session
+                cfg["other_fs"] = sim.draw_choice(OTHER_FS_DIRS, "other_fs_dir")
+                _AUD["xdev"] = {"root": env.root, "dir": os.path.join(env.root, *cfg["other_fs"].split("/")), "fired": 0, "reported": 0}
             sim.config = cfg
             sim.probe("root_population:" + env.population)
             _CUR["chunk"] = basic.FileSender.CHUNK_SIZE
